@@ -39,7 +39,7 @@ def main(argv):
             if tier == 'quick':
                 lines += run_harness(v, ['args', 260], seed) + run_harness(v, ['meta', 240], seed) + run_harness(v, ['lit', 300], seed)
             else:
-                lines += run_harness(v, ['args', 4000, 'all'], seed) + run_harness(v, ['meta', 4000], seed) + run_harness(v, ['lit', 6000], seed)
+                lines += run_harness(v, ['args', 2000, 'all'], seed) + run_harness(v, ['meta', 2000], seed) + run_harness(v, ['lit', 3000], seed)
         for l in lines:
             parts = l.split('\t')
             if parts[0] == 'ORACLE-FAIL': oracle_fail.append(parts[1:])
